@@ -174,6 +174,8 @@ def case_random(ctx, rng, wd, l=None):
     if shear:
         cellkind = "tri/sheared"
     ppp = np.ones(3, dtype=int) if nlkind == "voronoi" else gc.random_mask(rng, 3, allow_open=False)
+    if nlkind != "voronoi":
+        gc.unwrap_in_place(rng, snaps.snapshots, Hs, ppp)       # unwrapped coordinates: the same periodic configuration, the same bonds
     ra = min(geom.agreement_radius(Hf, ppp) for Hf in Hs)
     fn = os.path.join(wd, "nl.dat")
     fw = None
